@@ -29,6 +29,10 @@ func runAnalyzer(pass *analysis.Pass) (interface{}, error) {
 	if err != nil {
 		return nil, fmt.Errorf("init error: %w", err)
 	}
+	if critic == nil {
+		// The init error was already reported by an earlier pass.
+		return nil, nil
+	}
 
 	ctx := linter.NewContext(pass.Fset, pass.TypesSizes)
 	ctx.GoVersion = critic.goVersion
